@@ -30,7 +30,7 @@ ASSUMPTIONS = [
 ]
 PROBES = ["lists", "entries", "entries_changed", "poison_entries", "poison_text", "poison_bg", "three_element_entries", "large_true",
           "empty_list", "duplicates", "calls", "label_checked", "label_skipped_alpha_bg", "mode0", "mode1", "mode2", "very_readable",
-          "status_very_readable", "status_readable", "status_not_readable", "list_entries_form", "alias_family_entries", "same_translucent_text_on_several_backgrounds"]
+          "status_very_readable", "status_readable", "status_not_readable", "list_entries_form", "alias_family_entries", "same_translucent_text_on_several_backgrounds", "held_results_rechecked"]
 
 
 def _colour(rng, rgb, role):
@@ -109,7 +109,7 @@ def generate(rseed, tier, idx):
     else:
         positions = sorted({0, n, g.randrange(n + 1)})
     return {"prop": ID, "mode": mode, "vr": vr, "L": L, "perm": perm, "split": g.randint(0, n), "poison": pe,
-            "positions": positions, "as": g.choice(("tuple", "tuple", "list")), "container": g.choice(("list", "list", "list", "tuple")), "derived": True}
+            "positions": positions, "as": g.choice(("tuple", "tuple", "list")), "container": g.choice(("list", "list", "list", "tuple", "iter", "gen")), "derived": True}
 
 
 # ---------------------------------------------------------------------------
@@ -157,13 +157,15 @@ def execute(trace):
         large = bool(e.get("large")) if e.get("large") is not None else False
         po = apiops.oracle({"op": "pair", "t": e["t"], "b": e["b"], "large": large}, cache)
         if "exc" in po:
-            return {"kind": "oracle-raised", "exc": po["exc"]}
+            # the single-pair API raises on this entry: it certainly "cannot be parsed" - the bulk API must still
+            # return it unchanged with a status that claims nothing, and carry on with the other entries
+            return {"kind": "invalid", "single_api_raised": po["exc"]}
         valid = dec(po["ret"])[0]
         if not valid:
             return {"kind": "invalid"}
         mo = apiops.oracle({"op": "make", "t": e["t"], "b": e["b"], "large": large, "mode": mode, "vr": vr}, cache)
         if "exc" in mo:
-            return {"kind": "oracle-raised", "exc": mo["exc"]}
+            return {"kind": "invalid", "single_api_raised": mo["exc"]}
         colour, ok = dec(mo["ret"])
         lab = None
         if e.get("bg_rgb") is not None and colour is not None:
@@ -210,20 +212,21 @@ def execute(trace):
 
     # ---- 2. the history of bulk calls, all in this one process
     failed_in_base = set()
+    hold_ctx = apiops.Ctx()
 
     def call(entries, tag, kind_for_mismatch, save=False):
-        op = {"op": "bulk", "pairs": _pairs(entries), "mode": mode, "vr": vr, "as": trace["as"], "container": trace.get("container", "list")}
+        op = {"op": "bulk", "pairs": _pairs(entries), "mode": mode, "vr": vr, "as": trace["as"], "container": trace.get("container", "list"), "hold": True}
         if save:
             # the same call with save_report=True (report and its console line go to a sandbox): same results
             op["save"] = True
             sroot = base.new_sandbox("c12rep")
             try:
                 with apiops.Effects(sroot):
-                    r = apiops.run_op(op)
+                    r = apiops.run_op(op, hold_ctx)
             finally:
                 base.rm_tree(sroot)
         else:
-            r = apiops.run_op(op)
+            r = apiops.run_op(op, hold_ctx)
         bump("calls")
         events.append((tag, r))
         if "exc" in r:
@@ -284,6 +287,16 @@ def execute(trace):
         r9 = call(L, "again", "repetition")
         if r0 is not None and r9 is not None and r0 != r9:
             V("repetition", call="again", first=repr(r0)[:300], second=repr(r9)[:300])
+    # results handed to the caller earlier must still be what they were (no aliasing between calls)
+    for k, (obj, snap) in enumerate(hold_ctx.held):
+        bump("held_results_rechecked")
+        if apiops.enc(obj) != snap:
+            V("repetition", call="held-result-%d" % k, note="a list returned by an earlier call changed after later calls",
+              at_return=repr(snap)[:300], now=repr(apiops.enc(obj))[:300])
+            break
+    ids = [id(o) for o, _ in hold_ctx.held]
+    if len(set(ids)) < len(ids):
+        V("repetition", note="two calls returned the very same list object")
     nontrivial = changed_any and (derived or any(e.get("poison") for e in L))
     return {"violations": vio, "digest": base.digest(events), "nontrivial": nontrivial, "stats": stats,
             "steps": stats.get("calls", 0), "skipped": skipped}
